@@ -181,3 +181,51 @@ def random_blocks(rng, n):
             tags = ["Nest"] + [k["c"] for k in oc + ic + nc]
         out.append(case(F, blk, "C", sorted(set(tags)), "rblk-%d" % len(out)))
     return out
+
+
+# ---------------------------------------------------------------------------------------------
+# C24: pairs (lhs, rhs) of blocks that the API documentation declares equivalent; both sides are
+# built from FRESH objects (separate cases).
+
+def law_pairs(rng=None, n_random=0):
+    F = base_factors()
+    pairs = []
+
+    def add(name, lhs, rhs, Fx=None):
+        pairs.append((name, case(Fx or F, lhs, "C", ["law", name], "law-%s-lhs" % name),
+                      case(Fx or F, rhs, "C", ["law", name], "law-%s-rhs" % name)))
+
+    cons_pool = [[], [K("AtMostKInARow", k=1, f=3, l=0)], [K("MinimumTrials", k=6)], [K("Pin", i=0, f=3, l=2)],
+                 [K("ExactlyK", k=2, f=3, l=1)], [K("AtMostKInARow", k=1, f=1, l=1), K("MinimumTrials", k=5)]]
+    # MultiCrossBlock(d, Xs, cs, rcc, mode, al) == Merge([CrossBlock(d, X, [], rcc) ...], cs, mode, al)
+    i = 0
+    for mode in ("weight", "repeat"):
+        for d, xs, al in [([1, 2, 3], [[1, 2], [3]], "equal"), ([1, 2, 3], [[3], [1]], "equal"),
+                          ([1, 2, 4], [[1, 4], [2]], "post"), ([1, 2, 4], [[1, 4], [2]], "parallel"),
+                          ([1, 2, 3, 4], [[1, 4], [3]], "parallel")]:
+            for cs in cons_pool:
+                if any(k.get("f", 0) not in d + [0] for k in cs):
+                    continue
+                i += 1
+                add("multi-%d-%s-%s" % (i, mode, al), multi(d, xs, cs, True, mode, al),
+                    merge([cross(d, x, [], True) for x in xs], cs, mode, al))
+    add("multi-equal", multi([1, 2], [[1], [2]], [], True, "equal", "equal"),
+        merge([cross([1, 2], [1]), cross([1, 2], [2])], [], "equal", "equal"))
+    # Repeat(b, cs) == Merge([b], cs, REPEAT, EQUAL_PREAMBLE); Repeat(b, []) == b; Merge([b]) == b
+    blocks = [cross([1, 2], [1, 2]), cross([1, 2, 3], [1, 2], [K("AtMostKInARow", k=1, f=3, l=1)]),
+              cross([1, 3], [1], [K("MinimumTrials", k=4), K("ExactlyK", k=1, f=3, l=1)]),
+              cross([1, 4], [1, 4], [K("AtMostKInARow", k=2, f=1, l=1)]),
+              cross([1, 2], [1, 2], [K("MinimumTrials", k=6)]),
+              multi([1, 2, 3], [[1, 2], [3]], [], True, "weight", "equal")]
+    for bi, b in enumerate(blocks):
+        add("repeat-empty-%d" % bi, rep(copy.deepcopy(b), []), copy.deepcopy(b))
+        add("merge-single-%d" % bi, merge([copy.deepcopy(b)], [], "repeat", None), copy.deepcopy(b))
+        for ci, cs in enumerate([[K("MinimumTrials", k=8)], [K("MinimumTrials", k=9), K("AtMostKInARow", k=2, f=1, l=2)],
+                                 [K("MinimumTrials", k=7)]]):
+            add("repeat-%d-%d" % (bi, ci), rep(copy.deepcopy(b), cs), merge([copy.deepcopy(b)], cs, "repeat", "equal"))
+    # CrossBlock(d, X, cs) == MultiCrossBlock(d, [X], cs) in WEIGHT mode
+    for ci, (d, x, cs) in enumerate([([1, 2], [1, 2], []), ([1, 2, 3], [1, 2], [K("MinimumTrials", k=6)]),
+                                      ([1, 2, 4], [1, 4], [K("AtMostKInARow", k=1, f=2, l=1)]),
+                                      ([1, 3], [3], [K("MinimumTrials", k=5), K("Pin", i=-1, f=1, l=1)])]):
+        add("cross-multi-%d" % ci, cross(d, x, cs), multi(d, [x], cs, True, "weight", "equal"))
+    return pairs
